@@ -345,7 +345,10 @@ class LRI(dict):
 
     def __repr__(self):
         cn = self.__class__.__name__
-        val_map = super().__repr__()
+        # an evicting insert deletes one key before it stores the other;
+        # take the lock so that repr() never shows the state in between
+        with self._lock:
+            val_map = super().__repr__()
         return ('%s(max_size=%r, on_miss=%r, values=%s)'
                 % (cn, self.max_size, self.on_miss, val_map))
 
